@@ -1,5 +1,6 @@
 import MwVerif.Driver.Common
 import MwVerif.Model.Braces
+import MwVerif.Model.Args
 
 /-! `braces <tok> <tok> …` with `o<n>` opening run, `c<n>` closing run, `n` noinclude, `[` `]` link
 brackets, `t<cp>.<cp>…` text.  Reply: `error` or the nodes: `S<cp>.<cp>…`, `T[…]`, `V[…]`, `G[…]`. -/
@@ -37,6 +38,25 @@ def step (line : String) : String :=
     else match parse ts with
       | none => "error"
       | some ns => showNodes ns
+  | "args" =>
+    -- `args <0|1> <ch>…` with `[` `]` `|` `=` and `x<id>`; reply: arguments separated by ` / `, items `[ ] | = x<id>` and `E` (mark)
+    match (rest.splitOn " ").filter (· ≠ "") with
+    | [] => "bad-op"
+    | flag :: toks =>
+      let chs := toks.filterMap fun s =>
+        if s = "[" then some Args.Ch.lopen else if s = "]" then some .lclose else if s = "|" then some .pipe
+        else if s = "=" then some .eq else if s.startsWith "x" then (s.drop 1).toString.toNat?.map .other else none
+      if chs.length ≠ toks.length then "bad-op"
+      else
+        let showItem : Args.Item → String := fun it => match it with
+          | .eqmark => "E"
+          | .ch .lopen => "["
+          | .ch .lclose => "]"
+          | .ch .pipe => "|"
+          | .ch .eq => "="
+          | .ch (.other i) => s!"x{i}"
+        let r := Args.parseArgs (flag = "1") chs
+        s!"n={r.length} " ++ " / ".intercalate (r.map fun a => " ".intercalate (a.map showItem))
   | _ => "bad-op"
 
 end MwVerif.Driver.Braces
